@@ -440,6 +440,7 @@ func init() {
 			{Name: "PATH-TX", What: "newBuffer: Begin() after the first read of the record; lastChunk = tx.End() deferred on every exit", Floor: 1, Run: ruleTx},
 			{Name: "COUPLED-ITER", What: "Iterator: SetChunk(&chunks[0]) and chunks = chunks[1:] strictly alternate; Close clears the limit", Floor: 3, Run: ruleIterCoupled},
 			{Name: "PAIR-BLOCKED", What: "ChunkReader saves/sets/restores the reader's Blocked mode around its life", Floor: 1, Run: rulePairBlocked},
+			{Name: "CACHE-REWIND", What: "a block served from the cache is rewound to its start on every path (a block positioned by an abandoned Seek is cached mid-block; added after sixth-round seed C13-g)", Floor: 1, Run: ruleCacheRewind},
 			{Name: "CHUNK-CLAMP", What: "ChunkReader.Read subtracts the reader's in-block position from the clamp exactly when the reader is in the chunk's end block (added after a blind second seed round)", Floor: 2, Run: ruleChunkClamp},
 			{Name: "SETCHUNK-SEEKS", What: "bam.Reader.SetChunk always seeks to the chunk's Begin before installing it (added after a blind second seed round)", Floor: 1, Run: ruleSetChunkSeeks},
 			{Name: "BIT-VOFFSET", What: "all vOffset copies compute File<<16|Block and makeOffset is the inverse (bit domain, all values)", Floor: 6, Run: ruleVOffset},
